@@ -80,12 +80,21 @@ def assert_repo():
 
 def sh(cmd, timeout=900, cwd=None):
     t0 = time.time()
+    # own process group: on a timeout the whole group is killed (make's coqc children would otherwise run on)
+    p = subprocess.Popen(cmd, cwd=cwd, stdout=subprocess.PIPE, stderr=subprocess.STDOUT, text=True, start_new_session=True)
     try:
-        p = subprocess.run(cmd, cwd=cwd, timeout=timeout, capture_output=True, text=True)
-        return p.returncode, p.stdout + p.stderr, time.time() - t0
-    except subprocess.TimeoutExpired as e:
-        out = (e.stdout or b"").decode("utf8", "replace") if isinstance(e.stdout, bytes) else (e.stdout or "")
-        return 124, out + "\nTIMEOUT after %ss" % timeout, time.time() - t0
+        out, _ = p.communicate(timeout=timeout)
+        return p.returncode, out or "", time.time() - t0
+    except subprocess.TimeoutExpired:
+        try:
+            os.killpg(p.pid, 9)
+        except OSError:
+            pass
+        try:
+            out, _ = p.communicate(timeout=10)
+        except Exception:
+            out = ""
+        return 124, (out or "") + "\nTIMEOUT after %ss" % timeout, time.time() - t0
 
 
 class Lock:
